@@ -96,16 +96,35 @@ def replay_once(binpath, mode, path, env, verbose=False, timeout=300):
 
 
 def shrink_crash(binpath, mode, path, env, budget_s=60):
-    """Delta-debug a crashing input (fatal signals bypass rapidcheck's shrinking): chunk removal
-    then byte zeroing, keeping any candidate that still dies/fails in replay."""
+    """Delta-debug a crashing input (fatal signals bypass rapidcheck's shrinking): chunk removal,
+    keeping a candidate only if it still dies, or fails with a crash/hang/memory verdict, in
+    replay - a candidate that fails for some other reason (e.g. a recorded known finding) is a
+    different case, not a smaller one.  The unshrunk input is kept next to it as <path>.orig."""
     data = bytearray(open(path, "rb").read())
+    try:
+        shutil.copyfile(path, path + ".orig")
+    except OSError:
+        pass
     t0 = time.time()
+
+    def crashlike(rc, out):
+        if rc in (0, 2):
+            return False
+        if rc < 0 or rc >= 128:
+            return True                       # killed by a signal / sanitizer abort
+        for ln in out.splitlines():
+            if ln.startswith("RESULT: FAIL"):
+                return ("cls=CRASH" in ln) or ("cls=HANG" in ln and "crash:" in ln) or ("cls=MEM" in ln)
+        return False
+    rc0, out0 = replay_once(binpath, mode, path, env, timeout=120)
+    if not crashlike(rc0, out0):
+        return path                           # does not crash in replay as it is: nothing to minimise against
 
     def bad(buf):
         tmp = path + ".cand"
         open(tmp, "wb").write(bytes(buf))
         rc, out = replay_once(binpath, mode, tmp, env, timeout=60)
-        return rc != 0 and rc != 2
+        return crashlike(rc, out)
     chunk = max(1, len(data) // 2)
     while chunk >= 1 and time.time() - t0 < budget_s:
         i = 0
@@ -377,6 +396,9 @@ def _run_property(pid, sp, tier, seed, my_findings, tmpdir, t0):
             if kind != "enum":
                 env = san_env(tmpdir, quiet)
                 env["VF_CASE_CPU"] = str(ji["job"].get("case_cpu", 20))
+                if my_findings:
+                    env["VF_EXCLUDE"] = ",".join(kf["sig"] for kf in my_findings)     # a recorded finding is not a reproduction of something else
+                    env["VF_REPLAY_KEEP_EXCLUDE"] = "1"
                 for k, v in ji["job"].get("env", {}).items():
                     env[k] = str(tierval(v, tier))
                 rbin = ji["bin"]
@@ -403,6 +425,8 @@ def _run_property(pid, sp, tier, seed, my_findings, tmpdir, t0):
             nm = "%s-%s-%s%s" % (ji["job"]["h"], ji["mode"], hashlib.sha1(f["sig"].encode()).hexdigest()[:8], ext)
             dst = os.path.join(rdir, nm)
             shutil.copyfile(f["file"], dst)
+            if os.path.exists(f["file"] + ".orig"):
+                shutil.copyfile(f["file"] + ".orig", dst + ".orig")
             if kind != "enum":
                 # how to re-run it: build flavour and the job's environment
                 with open(dst + ".meta.json", "w") as mf:
@@ -504,7 +528,15 @@ def replay_cmd(argv):
         return 1
     # file name: <harness>-<mode>-<hash>.bin
     parts = base.rsplit(".", 1)[0].split("-")
-    h, mode = parts[0], parts[1]
+    h, mode = parts[0], parts[1] if len(parts) > 1 else ""
+    if h not in specs.HARNESS:
+        # a file not named by the driver (e.g. findings/C17-...): harness = the property's first generated-input job
+        pid = pid or (h if h in specs.PROPS else None)
+        jobs = [j for j in specs.PROPS.get(pid, {}).get("jobs", []) if j["kind"] == "pbt"]
+        if not jobs:
+            sys.stderr.write("cannot tell which harness %s belongs to; use --id ID\n" % base)
+            return 2
+        h, mode = jobs[0]["h"], pid
     if pid is None:
         pid = mode
     flavor, menv = replay_meta(path, pid, h)
